@@ -54,6 +54,7 @@ type c07Case struct {
 	IBGP       bool    `json:"ibgp"`
 	LocalHold  int     `json:"local_hold"`  // configured hold time (0 = no keepalives)
 	RemoteHold int     `json:"remote_hold"` // hold time in the peer's valid OPEN
+	PfxLimit   int     `json:"pfx_limit"`   // max-prefixes for IPv4 unicast (0 = none)
 	Events     []c07Ev `json:"events"`
 }
 
@@ -63,10 +64,22 @@ func drawC07(t *rapid.T) c07Case {
 		LocalHold:  rapid.SampledFrom([]int{9, 30, 90, 0, 3}).Draw(t, "local_hold"),
 		RemoteHold: rapid.SampledFrom([]int{9, 3, 30, 180, 0, 12}).Draw(t, "remote_hold"),
 	}
+	c.PfxLimit = rapid.SampledFrom([]int{0, 0, 1, 2}).Draw(t, "pfx_limit")
 	n := rapid.IntRange(1, 25).Draw(t, "n")
 	// weights: make handshakes likely
 	pool := []int{evConnect, evConnect, evConnect, evOpen, evOpen, evOpen, evKeepalive, evKeepalive, evKeepalive, evUpdate, evRouteRefresh,
 		evNotification, evGarbage, evClose, evWait, evWait, evWait, evEnable, evDisable, evShutdown, evReset, evSoftReset, evDelete}
+	// often start with a complete handshake so that the deeper states are explored
+	switch rapid.IntRange(0, 3).Draw(t, "prelude") {
+	case 0, 1:
+		c.Events = append(c.Events, c07Ev{Kind: evConnect}, c07Ev{Kind: evOpen}, c07Ev{Kind: evKeepalive})
+	case 2:
+		c.Events = append(c.Events, c07Ev{Kind: evConnect}, c07Ev{Kind: evOpen})
+	}
+	if rapid.Bool().Draw(t, "est_pool") {
+		// events that make sense on an established session get more weight
+		pool = append(pool, evUpdate, evUpdate, evUpdate, evKeepalive, evWait, evWait, evRouteRefresh, evConnect, evOpen, evKeepalive)
+	}
 	for i := 0; i < n; i++ {
 		e := c07Ev{Kind: rapid.SampledFrom(pool).Draw(t, fmt.Sprintf("k%d", i))}
 		switch e.Kind {
@@ -117,6 +130,8 @@ type c07Model struct {
 	ka        time.Duration
 	estCount  int
 	updAccepted int
+	pfxCt     bool            // shut down by the prefix limit: stays Idle until enabled
+	prefixes  map[int]bool    // distinct prefixes announced on the current session
 }
 
 const c07LocalAS = 65000
@@ -148,6 +163,7 @@ func (r *c07Run) fail(sig, f string, a ...any) *verifkit.Failure {
 }
 
 func (r *c07Run) enterIdle(now time.Duration) {
+	r.m.prefixes = nil
 	r.m.st = bgp.BGP_FSM_IDLE
 	r.m.idleUntil = now + r.m.idleHold
 	r.m.holdAt, r.m.kaNext = 0, 0
@@ -197,7 +213,7 @@ func (r *c07Run) advanceTimers(to time.Duration) {
 				next, what = t, w
 			}
 		}
-		if r.m.exists && r.m.st == bgp.BGP_FSM_IDLE && !r.m.adminDown {
+		if r.m.exists && r.m.st == bgp.BGP_FSM_IDLE && !r.m.adminDown && !r.m.pfxCt {
 			t := r.m.idleUntil
 			if t == 0 {
 				t = 1 // immediate
@@ -215,11 +231,17 @@ func (r *c07Run) advanceTimers(to time.Duration) {
 			r.m.idleUntil = 0
 			r.m.idleHold = 5 * time.Second
 		case "hold":
-			if r.m.kaNext == next && r.m.cur != nil {
-				// keepalive and hold timers expire at the same instant: either order is fine
-				r.m.cur.expect = append(r.m.cur.expect, c07Expect{typ: bgp.BGP_MSG_KEEPALIVE, at: next, optional: true})
+			tie := r.m.kaNext == next && r.m.cur != nil
+			cur := r.m.cur
+			if tie {
+				// keepalive and hold timers expire at the same instant: the KEEPALIVE (written by the
+				// sender goroutine) may come before or after the NOTIFICATION (written by the FSM goroutine)
+				cur.expect = append(cur.expect, c07Expect{typ: bgp.BGP_MSG_KEEPALIVE, at: next, optional: true})
 			}
 			r.dropSession(next, bgp.BGP_ERROR_HOLD_TIMER_EXPIRED, 0, true, "hold-expiry-notification")
+			if tie {
+				cur.expect = append(cur.expect, c07Expect{typ: bgp.BGP_MSG_KEEPALIVE, at: next, optional: true})
+			}
 		case "ka":
 			if r.m.cur != nil {
 				r.m.cur.expect = append(r.m.cur.expect, c07Expect{typ: bgp.BGP_MSG_KEEPALIVE, at: next, sig: "keepalive-cadence"})
@@ -236,15 +258,15 @@ func (r *c07Run) nextDeadline() time.Duration {
 			best = t
 		}
 	}
-	if r.m.exists && r.m.st == bgp.BGP_FSM_IDLE && !r.m.adminDown {
+	if r.m.exists && r.m.st == bgp.BGP_FSM_IDLE && !r.m.adminDown && !r.m.pfxCt {
 		pick(r.m.idleUntil)
 	}
 	pick(r.m.holdAt)
 	return best
 }
 
-func c07Update(tag uint32) *bgp.BGPMessage {
-	n, _ := bgp.NewIPAddrPrefix(netip.MustParsePrefix("10.7.0.0/24"))
+func c07Update(tag uint32, prefix int) *bgp.BGPMessage {
+	n, _ := bgp.NewIPAddrPrefix(netip.PrefixFrom(netip.AddrFrom4([4]byte{10, 7, byte(prefix), 0}), 24))
 	nh, _ := bgp.NewPathAttributeNextHop(netip.MustParseAddr("10.0.0.1"))
 	attrs := []bgp.PathAttributeInterface{
 		bgp.NewPathAttributeOrigin(0),
@@ -292,7 +314,7 @@ func (r *c07Run) apply(ev c07Ev) *verifkit.Failure {
 		cc := &c07Conn{ss: ss}
 		r.conns = append(r.conns, cc)
 		r.logf("connect -> conn#%d (model state %s)", len(r.conns)-1, m.st)
-		if m.exists && m.st == bgp.BGP_FSM_ACTIVE && !m.adminDown {
+		if m.exists && m.st == bgp.BGP_FSM_ACTIVE && !m.adminDown && !m.pfxCt {
 			m.st = bgp.BGP_FSM_OPENSENT
 			m.cur = cc
 			cc.expect = append(cc.expect, c07Expect{typ: bgp.BGP_MSG_OPEN, at: now, sig: "open-on-connect"})
@@ -360,7 +382,7 @@ func (r *c07Run) apply(ev c07Ev) *verifkit.Failure {
 		case evKeepalive:
 			msg = bgp.NewBGPKeepAliveMessage()
 		case evUpdate:
-			msg = c07Update(uint32(0x70000 + r.evIdx))
+			msg = c07Update(uint32(0x70000+r.evIdx), r.evIdx%4)
 		default:
 			msg = bgp.NewBGPRouteRefreshMessage(bgp.AFI_IP, 0, bgp.SAFI_UNICAST)
 		}
@@ -393,6 +415,16 @@ func (r *c07Run) apply(ev c07Ev) *verifkit.Failure {
 			}
 			if ev.Kind == evUpdate {
 				m.updAccepted++
+				if m.prefixes == nil {
+					m.prefixes = map[int]bool{}
+				}
+				m.prefixes[r.evIdx%4] = true
+				if r.c.PfxLimit > 0 && len(m.prefixes) > r.c.PfxLimit {
+					// prefix-limit overrun: Cease/Maximum Number of Prefixes Reached, and the peer stays down
+					m.pfxCt = true
+					r.st.Label("prefix-limit-overrun")
+					r.dropSession(now, bgp.BGP_ERROR_CEASE, bgp.BGP_ERROR_SUB_MAXIMUM_NUMBER_OF_PREFIXES_REACHED, true, "prefix-limit-notification")
+				}
 			}
 		}
 	case evNotification:
@@ -485,15 +517,15 @@ func (r *c07Run) apply(ev c07Ev) *verifkit.Failure {
 	case evEnable:
 		err := n.s.EnablePeer(r.ctx, &api.EnablePeerRequest{Address: r.peer.Addr})
 		r.logf("enable in %s adminDown=%v err=%v", m.st, m.adminDown, err)
-		if m.exists && m.adminDown {
-			m.adminDown = false
+		if m.exists && (m.adminDown || m.pfxCt) {
+			m.adminDown, m.pfxCt = false, false
 			m.idleUntil = now + m.idleHold
 		}
 	case evDisable:
 		err := n.s.DisablePeer(r.ctx, &api.DisablePeerRequest{Address: r.peer.Addr})
 		r.logf("disable in %s adminDown=%v err=%v", m.st, m.adminDown, err)
 		if m.exists && !m.adminDown {
-			m.adminDown = true
+			m.adminDown, m.pfxCt = true, false
 			switch m.st {
 			case bgp.BGP_FSM_ESTABLISHED:
 				r.dropSession(now, bgp.BGP_ERROR_CEASE, bgp.BGP_ERROR_SUB_ADMINISTRATIVE_SHUTDOWN, true, "admin-down-notification")
@@ -546,6 +578,7 @@ func (r *c07Run) apply(ev c07Ev) *verifkit.Failure {
 // resync adopts the server's reported state after an event whose outcome the RFC leaves open.
 func (r *c07Run) resync(why string) *verifkit.Failure {
 	r.n.settle()
+	defer func() { r.advanceTimers(r.n.now()) }()
 	st, _, p := r.n.peerState(r.peer.Addr)
 	if p == nil {
 		return nil
@@ -648,6 +681,8 @@ func (r *c07Run) verify() *verifkit.Failure {
 	wantAdmin := api.PeerState_ADMIN_STATE_UP
 	if r.m.adminDown {
 		wantAdmin = api.PeerState_ADMIN_STATE_DOWN
+	} else if r.m.pfxCt {
+		wantAdmin = api.PeerState_ADMIN_STATE_PFX_CT
 	}
 	if admin != wantAdmin {
 		return r.fail("admin-state-mismatch", "ListPeer reports admin state %s, last accepted admin operation implies %s", admin, wantAdmin)
@@ -721,6 +756,10 @@ func runC07(t *testing.T) func(c c07Case, st *verifkit.Stats) *verifkit.Failure 
 				Conf:      &api.PeerConf{NeighborAddress: r.peer.Addr, PeerAsn: r.peer.AS},
 				Transport: &api.Transport{PassiveMode: true},
 				Timers:    &api.Timers{Config: &api.TimersConfig{HoldTime: uint64(c.LocalHold), KeepaliveInterval: ka}},
+				AfiSafis: []*api.AfiSafi{{
+					Config:       &api.AfiSafiConfig{Family: &api.Family{Afi: api.Family_AFI_IP, Safi: api.Family_SAFI_UNICAST}, Enabled: true},
+					PrefixLimits: &api.PrefixLimit{Family: &api.Family{Afi: api.Family_AFI_IP, Safi: api.Family_SAFI_UNICAST}, MaxPrefixes: uint32(c.PfxLimit)},
+				}},
 			}})
 			if err != nil {
 				return verifkit.Failf("addpeer", "%v", err)
